@@ -9,51 +9,101 @@ Definition ET : expr := EConst DT.
 
 Ltac differ := split; [let H := fresh "H" in intro H; vm_compute in H; discriminate H | vm_compute; reflexivity].
 
-(* (if (values nil t) 1 2) : Go tests the Values object, which is not nil *)
+(* repaired (repo_fixes/C01-19): the tests of if, when, unless, cond, and, do, do* look at the primary value.
+   (if (values nil t) 1 2) => 2 ; (list (when (values nil 1) 3) (unless (values nil 1) 4) (cond ((values nil 1) 5) (t 6))
+   (and (values nil 1) 7) (do ((i 0 (1+ i))) ((values (> i 1) nil) i)))  => (nil 4 6 nil 2), in every mode *)
 Definition w_values_test := [EIf (EValues [ENil; ET]) (I 1) (Some (I 2))].
-Lemma values_in_test_refuted : fst (runM 60 w_values_test) <> fst (runS 60 w_values_test) /\ guardb 60 w_values_test = false.
-Proof. differ. Qed.
-(* (let ((x (values nil 1))) (if x 1 2)) : let stores the Values object *)
-Definition w_let_values := [ELet [("x", EValues [ENil; I 1])] [EIf (EVar "x") (I 1) (Some (I 2))]].
+Definition w_values_tests :=
+  [EPrim PList [EWhen (EValues [ENil; I 1]) [I 3]; EUnless (EValues [ENil; I 1]) [I 4];
+                ECond [(EValues [ENil; I 1], [I 5]); (ET, [I 6])]; EAnd [EValues [ENil; I 1]; I 7];
+                EDo false [("i", I 0, Some (EPrim PInc [EVar "i"]))] (EValues [EPrim PGt [EVar "i"; I 1]; ENil]) [EVar "i"] []]].
+Example tests_look_at_primary_value :
+  forallb (fun m => match fst (run m 60 w_values_test), fst (run m 60 w_values_tests) with
+                    | Ok (VInt 2), Ok (VList [VNil; VInt 4; VInt 6; VNil; VInt 2]) => true | _, _ => false end) [Slip; Ref; Chk] = true.
+Proof. vm_compute; reflexivity. Qed.
+(* what a test sees is the same in every mode: the primary value *)
+Lemma truthy_primary : forall m v, truthy m v = Ok (negb (is_nil (primary v))).
+Proof. reflexivity. Qed.
+(* (let ((x (values 1 2))) (multiple-value-bind (a b) x (list a b))) : let stores the Values object, the variable
+   then yields both values: (1 2) instead of (1 nil) *)
+Definition w_let_values := [ELet [("x", EValues [I 1; I 2])] [EMvb ["a"; "b"] (EVar "x") [EPrim PList [EVar "a"; EVar "b"]]]].
 Lemma let_binds_values_refuted : fst (runM 60 w_let_values) <> fst (runS 60 w_let_values) /\ guardb 60 w_let_values = false.
 Proof. differ. Qed.
-(* (multiple-value-bind (a b) (progn (values 1 2)) (list a b)) : progn keeps only the first value *)
+(* repaired (repo_fixes/C01-10): progn is the sequence of its forms and returns every value of the last one.
+   (multiple-value-bind (a b) (progn (values 1 2)) (list a b)) => (1 2) in every mode *)
 Definition w_progn_values := [EMvb ["a"; "b"] (EProgn [EValues [I 1; I 2]]) [EPrim PList [EVar "a"; EVar "b"]]].
-Lemma progn_values_refuted : fst (runM 60 w_progn_values) <> fst (runS 60 w_progn_values) /\ guardb 60 w_progn_values = false.
-Proof. differ. Qed.
-(* (if (car (mapcar (lambda (x) (values nil x)) '(1 2))) 1 2) : mapcar collects Values objects *)
+Example progn_values_passed :
+  forallb (fun m => match fst (run m 60 w_progn_values) with Ok (VList [VInt 1; VInt 2]) => true | _ => false end) [Slip; Ref; Chk] = true.
+Proof. vm_compute; reflexivity. Qed.
+Lemma progn_is_sequence : forall m n st sc es, eval m (S n) st sc (EProgn es) = ev_seq (eval m n) st sc es VNil.
+Proof. reflexivity. Qed.
+Lemma progn_single : forall m n st sc e, eval m (S n) st sc (EProgn [e]) = eval m n st sc e.
+Proof. intros. simpl. destruct (eval m n st sc e) as [[v|er] s]; reflexivity. Qed.
+(* repaired (repo_fixes/C01-17): mapcar collects the primary value of each call.
+   (if (car (mapcar (lambda (x) (values nil x)) '(1 2))) 1 2) => 2 in every mode *)
 Definition w_mapcar_values :=
   [EIf (EPrim PCar [EMapcar (ELambda ["x"] [EValues [ENil; EVar "x"]]) [EQuote (DList [DInt 1; DInt 2])]]) (I 1) (Some (I 2))].
-Lemma mapcar_values_refuted : fst (runM 60 w_mapcar_values) <> fst (runS 60 w_mapcar_values) /\ guardb 60 w_mapcar_values = false.
-Proof. differ. Qed.
-(* (let ((x 0)) (multiple-value-bind (a b) (setq x (values 1 2)) (list a b))) : setq returns every value *)
+Example mapcar_collects_primary_values :
+  forallb (fun m => match fst (run m 60 w_mapcar_values) with Ok (VInt 2) => true | _ => false end) [Slip; Ref; Chk] = true.
+Proof. vm_compute; reflexivity. Qed.
+Lemma mapcar_collects_primary : forall m ev st c row rows v st1 vs st2,
+  apply_fn m ev st c row = (Ok v, st1) -> ev_map m ev st1 c rows = (Ok vs, st2) ->
+  ev_map m ev st c (row :: rows) = (Ok (primary v :: vs), st2).
+Proof. intros m ev st c row rows v st1 vs st2 H1 H2. simpl. rewrite H1. simpl. rewrite H2. reflexivity. Qed.
+(* repaired (repo_fixes/C01-15, C01-16): setq returns the one value it stored, a cond clause without forms the primary
+   value of its test.
+   (let ((x 0)) (multiple-value-bind (a b) (setq x (values 1 2)) (list a b)))   => (1 nil)
+   (multiple-value-bind (a b) (cond ((values 1 2))) (list a b))                 => (1 nil)   in every mode *)
 Definition w_setq_values :=
   [ELet [("x", I 0)] [EMvb ["a"; "b"] (ESetq [("x", EValues [I 1; I 2])]) [EPrim PList [EVar "a"; EVar "b"]]]].
-Lemma setq_values_refuted : fst (runM 60 w_setq_values) <> fst (runS 60 w_setq_values) /\ guardb 60 w_setq_values = false.
-Proof. differ. Qed.
-(* (multiple-value-bind (a b) (or (values nil 2) 5) (list a b)) : or returns the Values object of a form that is
-   not the last *)
+Definition w_cond_values := [EMvb ["a"; "b"] (ECond [(EValues [I 1; I 2], [])]) [EPrim PList [EVar "a"; EVar "b"]]].
+Example setq_cond_single_value :
+  forallb (fun m => match fst (run m 60 w_setq_values), fst (run m 60 w_cond_values) with
+                    | Ok (VList [VInt 1; VNil]), Ok (VList [VInt 1; VNil]) => true | _, _ => false end) [Slip; Ref; Chk] = true.
+Proof. vm_compute; reflexivity. Qed.
+(* in every mode the value of (setq x e) is never a multiple-values object built by e: it is the primary value, the
+   one that was stored *)
+Lemma setq_returns_stored : forall m ev st sc x e v st1 st2,
+  ev st sc e = (Ok v, st1) -> assign m st1 sc x (primary v) = (Ok tt, st2) ->
+  ev_setq m ev st sc [(x, e)] VNil = (Ok (primary v), st2).
+Proof. intros m ev st sc x e v st1 st2 H A. simpl. rewrite H. simpl. rewrite A. reflexivity. Qed.
+(* repaired (repo_fixes/C01-14): a form of or that is not the last is judged by, and contributes, its primary value.
+   (multiple-value-bind (a b) (or (values nil 2) 5) (list a b)) => (5 nil) in every mode *)
 Definition w_or_values := [EMvb ["a"; "b"] (EOr [EValues [ENil; I 2]; I 5]) [EPrim PList [EVar "a"; EVar "b"]]].
-Lemma or_values_refuted : fst (runM 60 w_or_values) <> fst (runS 60 w_or_values) /\ guardb 60 w_or_values = false.
-Proof. differ. Qed.
-(* (dotimes (i -1 i)) : the variable ends as the count, not as the number of iterations *)
+Example or_takes_primary_value :
+  forallb (fun m => match fst (run m 60 w_or_values) with Ok (VList [VInt 5; VNil]) => true | _ => false end) [Slip; Ref; Chk] = true.
+Proof. vm_compute; reflexivity. Qed.
+(* what or does with a form that is not its last is the same in every mode, and it is what the language says: stop
+   with the primary value unless that is nil *)
+Lemma or_step_same : forall m v, or_step m v = Ok (if is_nil (primary v) then None else Some (primary v)).
+Proof. reflexivity. Qed.
+(* repaired (repo_fixes/C01-7): (dotimes (i -1 i)) => 0, the number of iterations, in every mode *)
 Definition w_dotimes_neg := [EDotimes "i" (I (-1)) (Some (EVar "i")) []].
-Lemma dotimes_negative_refuted : fst (runM 60 w_dotimes_neg) <> fst (runS 60 w_dotimes_neg) /\ guardb 60 w_dotimes_neg = false.
-Proof. differ. Qed.
+Example dotimes_negative_count_zero :
+  forallb (fun m => match fst (run m 60 w_dotimes_neg) with Ok (VInt 0) => true | _ => false end) [Slip; Ref; Chk] = true.
+Proof. vm_compute; reflexivity. Qed.
+(* for every count: after the loop the variable holds the number of iterations made *)
+Lemma dotimes_iterations : forall k, Z.max k 0 = Z.of_nat (List.length (seq 0 (Z.to_nat k))).
+Proof. intros k. rewrite seq_length. lia. Qed.
 (* (funcall (lambda (a b) (list a 'x)) 1) : too few arguments are accepted *)
 Definition w_short_args := [EFuncall (ELambda ["a"; "b"] [EPrim PList [EVar "a"; EQuote (DSym "x")]]) [I 1]].
 Lemma too_few_arguments_refuted : fst (runM 60 w_short_args) = Ok (VList [VInt 1; VSym "x"]) /\ fst (runS 60 w_short_args) = Er EArity /\ guardb 60 w_short_args = false.
 Proof. repeat split; vm_compute; reflexivity. Qed.
-(* (do ((i 0 (1+ i))) (t 5)) : an end test that is not a list is never evaluated; the loop does not end, whatever
-   the fuel *)
+(* repaired (repo_fixes/C01-6): the end test of do / do* is evaluated whatever its shape.
+   (do ((i 0 (1+ i))) (t 5)) => 5 ; (do* ((i 0 (1+ i)) (s nil (> i 2))) (s i)) => 3, in every mode, inside the guard *)
 Definition w_do_atom := [EDo false [("i", I 0, Some (EPrim PInc [EVar "i"]))] ET [I 5] []].
-Lemma do_atom_test_refuted : fst (runM 200 w_do_atom) = Er EFuel /\ fst (runS 200 w_do_atom) = Ok (VInt 5) /\ guardb 200 w_do_atom = false.
-Proof. repeat split; vm_compute; reflexivity. Qed.
-(* the loop forms evaluate their list / count / initial forms inside the scope that later holds the loop variables:
-   a closure made there sees the variable instead of the outer binding of the same name
-   (let ((x 10) (f nil)) (dolist (x (progn (setq f (lambda () x)) '(1 2))) nil) (funcall f))      10, Go: nil
-   (let ((x 10) (f nil)) (dotimes (x (progn (setq f (lambda () x)) 2)) nil) (funcall f))          10, Go: 2
-   (let ((y 1)) (funcall (do* ((f (lambda () y)) (y 5)) ((> y 0) f))))                             1, Go: 5 *)
+Definition w_do_var :=
+  [EDo true [("i", I 0, Some (EPrim PInc [EVar "i"])); ("s", ENil, Some (EPrim PGt [EVar "i"; I 2]))] (EVar "s") [EVar "i"] []].
+Example do_atom_test_evaluated :
+  forallb (fun m => match fst (run m 60 w_do_atom), fst (run m 60 w_do_var) with
+                    | Ok (VInt 5), Ok (VInt 3) => true | _, _ => false end) [Slip; Ref; Chk] = true.
+Proof. vm_compute; reflexivity. Qed.
+(* repaired (repo_fixes/C01-12, C01-13): the list form of dolist and the count form of dotimes are evaluated in the
+   enclosing scope, every variable of do* gets a scope of its own: a closure made there sees the enclosing variable
+   (let ((x 10) (f nil)) (dolist (x (progn (setq f (lambda () x)) '(1 2))) nil) (funcall f))      10
+   (let ((x 10) (f nil)) (dotimes (x (progn (setq f (lambda () x)) 2)) nil) (funcall f))          10
+   (let ((y 1)) (funcall (do* ((f (lambda () y)) (y 5)) ((> y 0) f))))                             1
+   in every mode: the guard run meets no deviation *)
 Definition w_dolist_scope :=
   [ELet [("x", I 10); ("f", ENil)]
      [EDolist "x" (EProgn [ESetq [("f", ELambda [] [EVar "x"])]; EQuote (DList [DInt 1; DInt 2])]) None [ENil];
@@ -65,13 +115,28 @@ Definition w_dotimes_scope :=
 Definition w_dostar_scope :=
   [ELet [("y", I 1)]
      [EFuncall (EDo true [("f", ELambda [] [EVar "y"], None); ("y", I 5, None)] (EPrim PGt [EVar "y"; I 0]) [EVar "f"] []) []]].
-Lemma loop_scope_refuted :
-  forallb (fun p => guardb 60 p) [w_dolist_scope; w_dotimes_scope; w_dostar_scope] = false /\
-  fst (runM 60 w_dolist_scope) = Ok VNil /\ fst (runS 60 w_dolist_scope) = Ok (VInt 10) /\
-  fst (runM 60 w_dotimes_scope) = Ok (VInt 2) /\ fst (runS 60 w_dotimes_scope) = Ok (VInt 10) /\
-  fst (runM 60 w_dostar_scope) = Ok (VInt 5) /\ fst (runS 60 w_dostar_scope) = Ok (VInt 1) /\
-  guardb 60 w_dolist_scope = false /\ guardb 60 w_dotimes_scope = false /\ guardb 60 w_dostar_scope = false.
-Proof. repeat split; vm_compute; reflexivity. Qed.
+Example loop_forms_outer_scope :
+  forallb (fun m => match fst (run m 60 w_dolist_scope), fst (run m 60 w_dotimes_scope), fst (run m 60 w_dostar_scope) with
+                    | Ok (VInt 10), Ok (VInt 10), Ok (VInt 1) => true | _, _, _ => false end) [Slip; Ref; Chk] = true.
+Proof. vm_compute; reflexivity. Qed.
+(* do* is nested binding: with at least one variable, (do* ((x e) b2 .. bk) ...) evaluates e in the enclosing scope and
+   the remaining init forms in a new scope that holds only x - exactly the way let* proceeds *)
+Lemma dostar_inits_like_letstar : forall m ev st sc x e s bs,
+  ev_inits_seq m ev st sc ((x, e, s) :: bs) =
+  bind (ev st sc e) (fun v st1 => bindo (store_red m v) st1 (fun a =>
+    ev_inits_seq m ev (snd (alloc st1 [(x, a)])) ((List.length (frames st1), 1) :: sc) bs)).
+Proof. reflexivity. Qed.
+
+(* repaired (repo_fixes/C01-18): dolist and dotimes take the primary value of their list / count form.
+   (dotimes (i (values 2 9) i)) => 2 ; (let ((r 0)) (dolist (x (values '(1 2) 3) r) (setq r (+ r x)))) => 3, every mode *)
+Definition w_dotimes_values := [EDotimes "i" (EValues [I 2; I 9]) (Some (EVar "i")) []].
+Definition w_dolist_values :=
+  [ELet [("r", I 0)] [EDolist "x" (EValues [EQuote (DList [DInt 1; DInt 2]); I 3]) (Some (EVar "r"))
+                        [ESetq [("r", EPrim PAdd [EVar "r"; EVar "x"])]]]].
+Example loop_form_primary_value :
+  forallb (fun m => match fst (run m 60 w_dotimes_values), fst (run m 60 w_dolist_values) with
+                    | Ok (VInt 2), Ok (VInt 3) => true | _, _ => false end) [Slip; Ref; Chk] = true.
+Proof. vm_compute; reflexivity. Qed.
 
 (* ------------------------------------------------------------------------------------------ non-vacuity *)
 (* the guard is satisfiable by programs that use closures, assignment through closures, shadowing, loops, recursion
